@@ -261,3 +261,124 @@ modelled! {
         std::mem::forget(decls); std::mem::forget(defs); std::mem::forget(report);
     }
 }
+
+// ---------------------------------------------------------------- C06-f one item against its bank
+
+fn any_opt_usize() -> Option<usize> {
+    if kani::any() { Some(kani::any()) } else { None }
+}
+
+modelled! {
+    #[kani::unwind(4)]
+    fn c06_f_item_in_bank() {
+        // the per-item checks of build_output: an item of `size` bits at bank position `pos` is accepted
+        // iff it ends inside the bank (no machine-word wrap) and, when it writes, the bank has an output offset
+        reset_report_model();
+        let mut report = diagn::Report::new();
+        let decls = decls_with_banks(2);
+        let mut defs = asm::defs::init();
+        defs.bankdefs.define(util::ItemRef::new(0), bank(0, 8, 0, None, Some(0), false));
+        let (bsize, outp) = (any_opt_usize(), any_opt_usize());
+        defs.bankdefs.define(util::ItemRef::new(1), bank(1, 8, 0, bsize, outp, false));
+        let pos: usize = kani::any();
+        let size: usize = kani::any();
+        let write: bool = kani::any();
+        let bd = asm::resolver::BankData { cur_position: pos };
+        let ctx = rctx(&bd, 1, false, true);
+        let r = asm::output::verif_check_bank_output(&mut report, sp(), &decls, &defs, &ctx, size, write);
+        let inside = match bsize { None => true, Some(b) => (pos as u128) + (size as u128) <= (b as u128) };
+        let writable = !write || outp.is_some();
+        assert!(!(r.is_ok() && !inside), "item that leaves its bank was accepted");
+        assert!(!(r.is_ok() && !writable), "write to a bank without an output offset was accepted");
+        assert!(r.is_ok() || !inside || !writable, "item inside a writable bank was rejected");
+        assert!(r.is_ok() == (msgs(&report) == 0), "Err without diagnostic or diagnostic without Err");
+        kani::cover!(r.is_ok() && bsize.is_some() && size > 0 && (pos as u128) + (size as u128) == bsize.unwrap() as u128, "item ends exactly at the bank's end");
+        kani::cover!(r.is_err() && inside, "non-writable bank");
+        kani::cover!(r.is_err() && pos.checked_add(size).is_none(), "end beyond the machine word");
+        kani::cover!(r.is_ok() && !write && outp.is_none(), "reservation in a non-writable bank");
+        std::mem::forget(ctx); std::mem::forget(decls); std::mem::forget(defs); std::mem::forget(report);
+    }
+}
+
+modelled! {
+    #[kani::unwind(5)]
+    fn c06_f_default_bank_usage() {
+        // items in the default bank are accepted iff no user bank exists
+        reset_report_model();
+        let mut report = diagn::Report::new();
+        let mut defs = asm::defs::init();
+        defs.bankdefs.define(util::ItemRef::new(0), bank(0, 8, 0, None, Some(0), false));
+        let n: usize = kani::any(); kani::assume(n <= 2);
+        let mut i = 0;
+        while i < n {
+            defs.bankdefs.define(util::ItemRef::new(i + 1), bank(i + 1, 8, 0, None, Some(0), false));
+            i += 1;
+        }
+        let which: usize = kani::any(); kani::assume(which <= n);
+        let bd = asm::resolver::BankData { cur_position: kani::any() };
+        let ctx = rctx(&bd, which, false, true);
+        let r = asm::output::verif_check_bank_usage(&mut report, sp(), &defs, &ctx);
+        assert!(r.is_ok() == (which != 0 || n == 0), "default-bank usage rule");
+        assert!(r.is_ok() == (msgs(&report) == 0), "Err without diagnostic or diagnostic without Err");
+        kani::cover!(r.is_err(), "default bank used beside a user bank");
+        kani::cover!(r.is_ok() && which == 0, "default bank alone");
+        kani::cover!(r.is_ok() && which == 2, "second user bank");
+        std::mem::forget(ctx); std::mem::forget(defs); std::mem::forget(report);
+    }
+}
+
+// ---------------------------------------------------------------- C06-e' labelalign
+
+modelled! {
+    #[kani::unwind(4)]
+    #[kani::stub(customasm::util::BigInt::checked_add, crate::model::st_add)]
+    #[kani::stub(customasm::util::BigInt::checked_mul, crate::model::st_mul)]
+    #[kani::stub(customasm::util::BigInt::checked_mod, st_mod16)]
+    fn c06_e_labelalign() {
+        // [data of s0 bits, label at depth d] in a bank with `#labelalign a`: a top-level label sits at the
+        // smallest p >= s0 with (start*unit + p) % a == 0; a nested label is not moved
+        reset_report_model();
+        let mut report = diagn::Report::new();
+        let mut decls = empty_decls();
+        let depth: usize = kani::any(); kani::assume(depth <= 1);
+        let sym = decls.symbols.verif_push_decl("l", depth, util::SymbolContext::new_global());
+        let mut defs = asm::defs::init();
+        let uk: usize = kani::any(); kani::assume(uk < 3);
+        let unit = [1usize, 8, 16][uk];
+        let start: u8 = kani::any();
+        let a: usize = kani::any(); kani::assume(a >= 1 && a <= 64);
+        let has: bool = kani::any();
+        let mut b = bank(0, unit, start as i64, None, Some(0), false);
+        b.label_align = if has { Some(a) } else { None };
+        defs.bankdefs.define(util::ItemRef::new(0), b);
+        let s0: usize = kani::any(); kani::assume(s0 < 200);
+        defs.data_elems.define(util::ItemRef::new(0), asm::DataElement { item_ref: util::ItemRef::new(0), position_within_bank: None, encoding_statically_known: true, encoding: BigInt::new(0, Some(s0)), resolved: false });
+        let lit = || expr::Expr::Literal(sp(), expr::Value::Bool(false));
+        let ast = asm::AstTopLevel { nodes: vec![
+            asm::AstAny::DirectiveData(asm::AstDirectiveData { header_span: sp(), elem_size: None, elems: vec![lit()], item_refs: vec![util::ItemRef::new(0)] }),
+            asm::AstAny::Symbol(asm::AstSymbol { decl_span: sp(), hierarchy_level: depth, name: String::from("l"), kind: asm::AstSymbolKind::Label, no_emit: false, item_ref: Some(sym) }),
+        ] };
+        let mut it = asm::ResolveIterator::new(&ast, &defs, false, false);
+        let mut k = 0;
+        let mut pos_label = 0;
+        while k < 2 {
+            match it.next(&mut report, &decls, &defs) {
+                Ok(Some(ctx)) => { if k == 1 { pos_label = ctx.bank_data.cur_position; } std::mem::forget(ctx); }
+                _ => assert!(false, "iterator ended early"),
+            }
+            k += 1;
+        }
+        let base = start as usize * unit;
+        assert!(pos_label >= s0, "label alignment moved backwards");
+        if !has || depth != 0 {
+            assert!(pos_label == s0, "label moved although no label alignment applies to it");
+        } else {
+            assert!((base + pos_label) % a == 0, "top-level label is not aligned to #labelalign");
+            assert!(pos_label - s0 < a, "label alignment padding is not minimal");
+        }
+        kani::cover!(has && depth == 0 && a == 32 && start == 3 && unit == 8 && pos_label > s0, "label padded in a bank with a non-zero start");
+        kani::cover!(has && depth == 1, "nested label");
+        kani::cover!(has && depth == 0 && pos_label == s0 && a > 1, "already aligned");
+        std::mem::forget(it); std::mem::forget(decls); std::mem::forget(defs); std::mem::forget(report); std::mem::forget(ast);
+    }
+}
